@@ -194,14 +194,21 @@ theorem exec_countEq (P : Prog) (s s' : State) (t : Nat) (i : Instr) (rest : Lis
   case joinU k =>
     simp only [exec] at h
     split at h
-    · rename_i hg
-      obtain ⟨hs0, htk⟩ := hg
-      have hkn := hlt k (by rw [hs0]; simp)
-      have hmk := hut k (by simp)
-      simp only [Option.some.injEq] at h; subst h
-      refine countEq_upd2 P s _ t k _ _ hE ht hkn (Ne.symm htk) rfl ?_
-      simp [wPlus, wMinus, hc, hs0, hmk, cPlus, cMinus, iPlus, iMinus, htk]
-    · simp at h
+    · simp only [Option.some.injEq] at h; subst h
+      refine countEq_upd1 P s _ t _ hE ht rfl ?_
+      simp [wPlus, wMinus, hc, cPlus, cMinus, iPlus, iMinus]
+    · split at h
+      · simp only [Option.some.injEq] at h; subst h
+        refine countEq_upd1 P s _ t _ hE ht rfl ?_
+        simp [wPlus, wMinus, hc, cPlus, cMinus, iPlus, iMinus]
+      · split at h
+        · rename_i htk _ hs0
+          have hkn := hlt k (by rw [hs0]; simp)
+          have hmk := hut k (by simp)
+          simp only [Option.some.injEq] at h; subst h
+          refine countEq_upd2 P s _ t k _ _ hE ht hkn (Ne.symm htk) rfl ?_
+          simp [wPlus, wMinus, hc, hs0, hmk, cPlus, cMinus, iPlus, iMinus, htk]
+        · simp at h
   all_goals exec_split h
   all_goals (first
     | (refine countEq_upd1 P s _ t _ hE ht rfl ?_
